@@ -65,6 +65,8 @@ type evidence struct {
 	Violations  int                    `json:"violations"`
 }
 
+var witFuncs int
+
 func runCheck(o checkOpts) int {
 	t0 := time.Now()
 	p, err := loadProg(o.repoDir, filepath.Join(o.verifDir, "spec"))
@@ -276,12 +278,6 @@ func runCheck(o checkOpts) int {
 			if ob.HarnessJob.Args["lang"] == "" {
 				suffix = ""
 			}
-		} else if ob.fx != nil && ob.Result != nil && ob.Result.Verdict == VSat {
-			ok, detail := p.replayModel(o, ob)
-			rep["replay_on_real_code"] = detail
-			if ok {
-				suffix = ""
-			}
 		}
 		if suffix != "" {
 			// a witness recorded with an earlier (repaired or known) finding about this obligation:
@@ -298,6 +294,27 @@ func runCheck(o checkOpts) int {
 					suffix = ""
 					break
 				}
+			}
+		}
+		if suffix != "" && ob.fx != nil && !ob.Canary && ob.HarnessJob == nil && lemmaRes[strings.TrimPrefix(ob.Name, "lemma.")] == nil {
+			// look for an input of the real function on which a contract clause is false (witness.go)
+			if _, seen := witCache[ob.fx.key]; seen || witFuncs < 3 {
+				if !seen {
+					witFuncs++
+				}
+				w, note := p.witnessSearch(o, ob)
+				if w != nil {
+					rep["replay_on_real_code"] = fmt.Sprintf("REPRODUCED on the real code: %s = %s violates clause(s) %s of the contract of %s (candidate from: %s)", w.Call, w.Result, strings.Join(w.Clauses, ", "), ob.fx.short, w.Source)
+					rep["witness_recipe"] = w
+					suffix = ""
+				} else {
+					rep["witness_search"] = note
+				}
+			} else {
+				rep["witness_search"] = "skipped: three functions were already searched in this run"
+			}
+			if _, ok := rep["replay_on_real_code"]; !ok {
+				rep["replay_on_real_code"] = rep["witness_search"]
 			}
 		}
 		data, _ := json.MarshalIndent(rep, "", " ")
